@@ -309,6 +309,22 @@ func (x *c17) oneConfig(cfg *pb.ApiConfig, desc string) {
 		x.report("C17.P5", "configuration changed by a later resolver update", fmt.Sprintf("first %v, now %v", effBefore, gb.cfg.ApiConfig))
 	}
 	x.nt["cfg|"+desc] = true
+	// P5b: the configuration is fixed by the first resolver update even when that
+	// update could not create a single connection (empty address list)
+	if caller != nil {
+		cc2 := &fakeCC{}
+		b2 := newBuilder().Build(cc2, balancer.BuildOptions{})
+		gb2 := b2.(*gcpBalancer)
+		b2.UpdateClientConnState(balancer.ClientConnState{ResolverState: resolver.State{Addresses: addrLists["empty"]}, BalancerConfig: &GCPBalancerConfig{ApiConfig: proto.Clone(orig).(*pb.ApiConfig)}})
+		b2.UpdateClientConnState(balancer.ClientConnState{ResolverState: resolver.State{Addresses: addrLists["a1"]}, BalancerConfig: other})
+		if gb2.cfg == nil || !proto.Equal(gb2.cfg.ApiConfig, exp) || gb2.methodCfg["other"] != nil {
+			x.report("C17.P5", "configuration replaced by a later resolver update after a first update that created no connection", fmt.Sprintf("first %v, now %v", exp, gb2.cfg))
+		}
+		b2.UpdateClientConnState(balancer.ClientConnState{ResolverState: resolver.State{Addresses: addrLists["a1"]}})
+		if gb2.cfg == nil || !proto.Equal(gb2.cfg.ApiConfig, exp) {
+			x.report("C17.P5", "configuration reset by a later resolver update without a configuration", fmt.Sprintf("first %v, now %v", exp, gb2.cfg))
+		}
+	}
 }
 
 // P6: GCPMultiEndpoint neither mutates nor aliases the caller's configuration.
